@@ -527,6 +527,18 @@ for l in (0, 1, 2, 3, 4, 8):
       spec="hex::encode gives two lower-case digits per byte; every respelling of '0x' + that + newline (case, prefix, inserted "
            "white space) decodes to exactly the original bytes")
 
+for _nm in ["c16_account_default", "c16_account_hd_path", "c16_account_bad_path"]:
+  H(_nm, "cmd", ["C16", "C17"], timeout=1800, mem_gb=12,
+  functions=["cmd::AccountOptions::private_key", "<hdk::Path as FromStr>::from_str (real, on the two concrete --hd-path texts)", "hdk::derive"],
+  inputs="password: every ASCII string of 0..=3 bytes; account index: all 2^64 values; --hd-path absent / 'm/9' / '9' (malformed) -- one query "
+         "each; verdicts of for_index and of the derivation symbolic",
+  bound="password <= 3 bytes; two concrete --hd-path texts",
+  stubs=["mnemonic::Mnemonic::seed -> recorder (which mnemonic, which password; fixed seed) -- C02", "hdk::Path::for_index -> recorder (which "
+         "index; returns the path [77'] or an error) -- C14", "hdk::derive_slice -> recorder (which seed, which path; fixed key or an error) -- C03"]
+        + NOFMT,
+  spec="seed = seed(this mnemonic, this password); path = for_index(account_index) without --hd-path, the parsed --hd-path otherwise (the "
+       "account index is then not consulted); a path error is returned and nothing is derived; the result of derive(seed, path) is returned unchanged")
+
 # =========================================================================================== C06 with rlp::list as a recorder
 LIST_STUB = ["transaction::rlp::{uint, bytes} and AccessList::rlp_encode -> recorders (log kind, value, length; return a distinct one-byte "
              "placeholder)",
@@ -550,10 +562,11 @@ H("c06l_eip1559_symdata", "transaction", ["C06", "C17"], timeout=900, mem_gb=6, 
   inputs="as c06l_eip1559_signed with calldata of symbolic length 0..=40 and symbolic content and an access list of 0, 1 or 2 entries",
   bound="calldata <= 40 bytes, access list <= 2 entries", stubs=LIST_STUB,
   spec="the data leaf is handed exactly the calldata (length and first 32 bytes compared), the access-list leaf exactly the list")
-for nm in ["c06l_signing_message_eip2930", "c06l_signing_message_eip1559"]:
+for nm in ["c06l_signing_message_legacy_nochain", "c06l_signing_message_legacy_chain", "c06l_signing_message_eip2930",
+           "c06l_signing_message_eip1559"]:
     H(nm, "transaction", ["C06", "C11", "C17"], timeout=900, mem_gb=6, auto_unwind=K256_UNWIND,
       functions=["transaction::Transaction::signing_message", "transaction::Transaction::rlp_encode"],
-      inputs="typed transaction with every integer field symbolic, recipient present/absent", bound="calldata 2 bytes, empty access list",
+      inputs="transaction of that kind with every integer field symbolic, recipient present/absent", bound="calldata 2 bytes, empty access list",
       stubs=LIST_STUB + ["ethdigest::Digest::of -> uninterpreted recorder"], trusted=["Keccak-256 (ethdigest/sha3)"],
       spec="exactly one Keccak over exactly the unsigned payload (type byte || list) built from the same leaves in the same order")
 H("c06l_encode_dispatch", "transaction", ["C06", "C17"], timeout=900, mem_gb=6, auto_unwind=K256_UNWIND,
@@ -569,6 +582,16 @@ for e, s0, s1 in [(0, 0, 0), (1, 0, 0), (1, 1, 0), (1, 2, 0), (2, 1, 0), (2, 0, 
       bound="<= 2 entries x <= 2 keys", stubs=[LIST_STUB[1], "transaction::rlp::bytes -> recorder (logs the byte string, returns a placeholder)"],
       spec="[[address, [key, ...]], ...]: per entry one list of its 32-byte keys, one two-item list [address, keys], one outer list of the "
            "entries, everything in declaration order")
+for e, s0, s1 in [(0, 0, 0), (1, 0, 0), (1, 1, 0), (1, 2, 0), (2, 1, 0), (2, 0, 2), (2, 2, 2)]:
+    H(f"c06i_alist_{e}_{s0}_{s1}", "transaction", ["C06", "C07", "C17"], timeout=900, mem_gb=6,
+      functions=["transaction::accesslist::AccessList::rlp_encode", "transaction::accesslist::StorageSlot::rlp_encode"],
+      inputs=f"{e} entries with {s0} and {s1} storage keys (shape concrete per query), addresses and keys symbolic",
+      bound="<= 2 entries x <= 2 keys",
+      stubs=[LIST_STUB[1], "transaction::rlp::bytes -> recorder (logs the byte string, returns a placeholder)",
+             "transaction::rlp::iter -> recorder (drives the iterator, logs the placeholders it yields, returns a fresh placeholder); its "
+             "contract (the list of the yielded items, in iteration order) is decided in c07_iter_*"],
+      spec="[[address, [key, ...]], ...]: per entry one list of its 32-byte keys in the given order (no sorting, no de-duplication), one "
+           "two-item list [address, keys], one outer list of the entries, everything in declaration order")
 H("c11_cli_guard", "cmd_sign", ["X11"], timeout=1500, mem_gb=9, auto_unwind=K256_UNWIND,
   functions=["cmd::sign::run (Input::Transaction arm)"],
   inputs="transaction kind symbolic (legacy with/without chain id, EIP-2930, EIP-1559), chain id one symbolic byte, --signature-only and "
@@ -582,16 +605,39 @@ H("c11_cli_guard", "cmd_sign", ["X11"], timeout=1500, mem_gb=9, auto_unwind=K256
   spec="a legacy transaction without chain id is refused unless the override flag is given -- in BOTH output modes, before anything is "
        "signed or printed; every other transaction is signed exactly once over its signing digest and exactly one line is printed; the "
        "full output carries the signature just made; a parse error signs and prints nothing")
-H("c08_struct_hash", "typeddata", ["C08", "C09", "C17"], timeout=1800, mem_gb=14,
-  functions=["typeddata::Types::struct_hash", "serde_json::Map::{insert, remove, is_empty} (real BTreeMap)"],
-  inputs="struct T { bool a; string b } ; message object with a symbolic subset of the keys a, b (declared) and c (undeclared); typeHash, "
-         "member words and per-member encoding verdicts symbolic",
-  bound="two declared members, three candidate keys",
-  stubs=["typeddata::Types::type_definition -> table look-up", "typeddata::Types::type_hash -> recorder (symbolic typeHash; encodeType "
-         "itself is not decided)", "typeddata::Types::encode_value -> recorder (logs member and value, symbolic word or error; atoms "
-         "decided in c08_atom_* / c09_*)", "ethdigest::Digest::of -> uninterpreted recorder"],
-  spec="Ok iff exactly the declared members are present and every value encodes: one Keccak over typeHash || word(a) || word(b) in "
-       "declaration order, each value paired with its own member; missing / undeclared member or encoding error -> Err, nothing hashed")
+for nm in ["c08_closure_p", "c08_closure_a", "c08_closure_b"]:
+    H(nm, "typeddata", ["X08"], timeout=2400, mem_gb=14,
+      functions=["typeddata::Types::encode_type (work-list, BTreeMap of sub-types)", "typeddata::TypeDefinition::struct_references",
+                 "typeddata::MemberKind::struct_reference"],
+      inputs="all 4^6 reference graphs on the types A, B, P (two members each, every member a reference to A, B, P or the leaf type Z); "
+             "primary type fixed per query", bound="3 struct types with 2 members + 1 leaf type",
+      stubs=["typeddata::Types::type_definition -> table look-up that logs which definition is resolved",
+             "std::hash::RandomState::new -> fixed keys"] + NOFMT,
+      spec="the primary type is resolved first; then exactly the transitively referenced types other than the primary, each exactly once; "
+           "number of top-level renderings = 4 + number of sub-types. Name order of the output (BTreeMap) and the text of the definitions "
+           "(Display) are not decided here")
+for nm in ["c08_encode_type_concrete_0", "c08_encode_type_concrete_all"]:
+    H(nm, "typeddata", ["X08"], timeout=2400, mem_gb=14, functions=["typeddata::Types::encode_type (real BTreeMap, real Display / write!)"],
+      inputs="a symbolic choice among seven CONCRETE reference graphs (member orders [B, A, A] / [A, A, B], self-recursive primary type, mutual "
+             "recursion through the primary type, diamond, recursion among sub-types, no references)",
+      bound="seven concrete graphs; did not finish in 25 min even for one graph", stubs=CAP_STUBS,
+      spec="exact encodeType text: primary type first, then the transitively referenced types once each in name order")
+for m in range(8):
+    H(f"c08_struct_hash_m{m}", "typeddata", ["X08"], timeout=1800, mem_gb=12,
+      functions=["typeddata::Types::struct_hash", "serde_json::Map::{insert, remove, is_empty} (real BTreeMap)"],
+      inputs="struct T { bool a; string b }; message object holding the subset of the keys a, b (declared), c (undeclared) given by the bit mask "
+             f"{m:03b} (concrete per query); c's value a number or null; typeHash, member words and per-member encoding verdicts symbolic",
+      bound="two declared members, three candidate keys",
+      stubs=["typeddata::Types::type_definition -> table look-up", "typeddata::Types::type_hash -> recorder (symbolic typeHash; encodeType "
+             "itself is decided separately)", "typeddata::Types::encode_value -> recorder (logs member and value, symbolic word or error; "
+             "atoms decided in c08_atom_* / c09_*)", "ethdigest::Digest::of -> uninterpreted recorder"],
+      spec="Ok iff exactly the declared members are present and every value encodes: one Keccak over typeHash || word(a) || word(b) in "
+           "declaration order, each value paired with its own member; missing / undeclared member or encoding error -> Err, nothing hashed")
+H("c08_struct_hash_empty", "typeddata", ["X08"], timeout=1200, mem_gb=9,
+  functions=["typeddata::Types::struct_hash"], inputs="struct T with no members; value {} or {c: null}", bound="memberless struct",
+  stubs=["typeddata::Types::type_definition -> table look-up", "typeddata::Types::type_hash -> recorder (symbolic typeHash)",
+         "ethdigest::Digest::of -> uninterpreted recorder"],
+  spec="hashStruct of a memberless struct is one Keccak over exactly the 32-byte typeHash; an undeclared member is refused")
 H("c06_kind_dispatch", "transaction", ["X06"], timeout=900, mem_gb=9,
   functions=["<Transaction as Deserialize>::deserialize"], inputs="JSON object with a symbolic subset of seven keys",
   bound="does not compile: Kani 0.68 internal compiler error in codegen_get_discriminant (niche of Result<Eip1559Transaction, _> "
@@ -623,7 +669,12 @@ for l in (19, 20, 21):
 for nm, tiers in [("c08_kind_width_uint", (Q, T)), ("c08_kind_width_int", (Q, T)), ("c08_kind_width_bytes", (Q, T)),
                   ("c08_kind_width_uint_array", (T,)), ("c08_kind_width_bytes_array", (Q, T))]:
     H(nm, "typeddata", ["C08", "C09", "C20", "C17"], tiers=tiers, timeout=1800, mem_gb=9,
-      auto_unwind={"memcmp": 40, "from_ascii": 6, "check_width": 6, "memchr": 12, "pattern": 12, "str": 12, "chars": 12},
+      # CBMC unwinds recursion at every call site up to the harness bound (1 + 2 + 3 + 5 + 8 copies of the parser at depth 5) and
+      # CBMC 6 has no per-function recursion bound, so the HARNESS bound is 2 (one level of recursion: one array suffix) and every
+      # loop gets its own bound through the automatic --unwindset retries
+      max_retries=6,
+      auto_unwind={"memcmp": 12, "from_ascii": 6, "check_width": 5, "memrchr": 14, "memchr": 14, "pattern": 14, "binary_search": 8,
+                   "chars": 14, "str": 14, "Searcher": 14},
       functions=["typeddata::MemberKind::from_str"],
       inputs="concrete prefix uint/int/bytes + 1..=3 symbolic decimal digits (every width 0..=999 in every spelling) [+ '[]']",
       bound="three digits",
@@ -722,9 +773,10 @@ c07_uint c07_list_0_0_0 c07_list_20_20_15 c07_list_21_20_15 c07_iter_1_33_21 c07
 c06_legacy_unsigned_nochain c06_legacy_unsigned_chain c06_legacy_signed_nochain c06_legacy_signed_chain
 c06l_eip2930_unsigned c06l_eip2930_signed c06l_eip1559_unsigned c06l_eip1559_signed c06l_signing_message_eip2930
 c06l_signing_message_eip1559 c06l_eip1559_symdata
+c06i_alist_0_0_0 c06i_alist_1_1_0 c06i_alist_1_2_0 c06i_alist_2_1_0
 c19_filtercap_ascii_4 c19_filtercap_ascii_8 c19_filtercap_ascii_12 c19_filtercap_unicode c19_hexcap_ascii4 c19_respell_1
 c13n_bytes_2 c13n_bytes_4
-c06_signing_message_legacy_nochain c06_sig_accessors c11_v c11_v_kf_d7
+c06l_signing_message_legacy_nochain c06l_signing_message_legacy_chain c06_sig_accessors c11_v c11_v_kf_d7
 c08_final_digest c08_atom_string c08_atom_bytes_dynamic c09_uint_range c09_int_range
 c09_bytes1_len0 c09_bytes1_len1 c09_bytes1_len2 c09_bytes4_len3 c09_bytes31_len32 c09_bytes32_len31 c09_bytes32_len32 c09_bytes32_len33
 c10_digest_000 c10_digest_009 c10_digest_010 c10_digest_symlen
@@ -742,7 +794,8 @@ c01_unpack_18 c01_unpack_21 c01_count_01 c01_count_02 c01_count_03 c01_count_06 
 c01_count_19 c01_count_20 c01_count_22 c01_count_26 c01_count_27 c01_count_30 c01_count_33 c01_count_36 c01_count_40
 c03_master_s16 c03_master_s32 c03_master_s96 c03_d1_hardened_s64 c03_d1_normal_s64
 c04_new_01 c04_new_16 c04_new_24 c04_new_40 c04_new_64
-c06_signing_message_legacy_chain c06_eip2930_unsigned c06l_encode_dispatch
+c06_signing_message_legacy_chain c06_signing_message_legacy_nochain c06_eip2930_unsigned c06l_encode_dispatch
+c06i_alist_1_0_0 c06i_alist_2_0_2 c06i_alist_2_2_2
 c19_filtercap_ascii_3 c19_filtercap_ascii_6 c19_filtercap_ascii_16 c19_hexcap_ascii6 c19_hexcap_unicode c19_respell_0
 c07_bytes_003 c07_bytes_020 c07_bytes_032 c07_bytes_033 c07_bytes_054 c07_bytes_064 c07_bytes_100 c07_bytes_255 c07_bytes_256
 c07_bytes_257 c07_list_1_0_2 c07_list_33_33_33 c07_iter_0_0_0
